@@ -307,7 +307,9 @@ def writeUnpackInfo (folders : List Folder) : Bytes :=
 def readSubSizes : List Nat → List Folder → P (List Nat)
   | [], _ => pure []
   | _ :: _, [] => fail .malformed          -- folders[i] IndexError (cannot happen: same length)
-  | n :: ns, f :: fs => do
+  | n :: ns, f :: fs =>
+    -- a folder without sub-streams has no size entry, not even the implicit one
+    if n = 0 then readSubSizes ns fs else do
     let explicit ← repeatP (n - 1) pNumber
     match folderUnpackSize f with
     | none => fail .malformed
